@@ -178,6 +178,12 @@ func (h *Sources) Walk(pos int) {
 		return
 	}
 
+	// Nor down from the line being entered: it is not saved yet, so
+	// there is nothing to restore it from, and it must be left as is.
+	if h.hpos == -1 && pos <= 0 {
+		return
+	}
+
 	// Save the current line buffer if we are leaving it.
 	if h.hpos == -1 && pos > 0 {
 		h.skip = false
